@@ -9,18 +9,25 @@ from typing import Any
 
 
 def _make_key(method):
-    method = method.func if isinstance(method, partial) else method
+    # The signature of a partial also depends on what it already binds.
+    bound = None
+    if isinstance(method, partial):
+        bound = (len(method.args), tuple(sorted(method.keywords)))
+        method = method.func
     method = method.fget if isinstance(method, property) else method
+    # The code object (not just the local variable names) identifies the parameter kinds
+    # and whether the callable is a coroutine function.
     if isinstance(method, MethodType):
         return hash(
             (
                 method.__qualname__,
                 method.__self__.__class__.__name__,
-                method.__code__.co_varnames,
+                method.__code__,
+                bound,
             )
         )
     else:
-        return hash((method.__qualname__, method.__code__.co_varnames))
+        return hash((method.__qualname__, method.__code__, bound))
 
 
 def signature_cache(user_function):
